@@ -42,6 +42,16 @@ def gen_translated():
     def step(fn_obj):
         def build():
             fn = py2lean.function_ast(fn_obj)
+            # the byte variable is whatever is assigned from ord(...); canonical name `c`
+            var = [ast.unparse(n.targets[0]) for n in ast.walk(fn) if isinstance(n, ast.Assign)
+                   and isinstance(n.value, ast.Call) and ast.unparse(n.value.func) == 'ord']
+            if len(set(var)) != 1:
+                raise py2lean.Unsupported('byte variable not found')
+            if var[0] != 'c':
+                class Ren(ast.NodeTransformer):
+                    def visit_Name(self, n):
+                        return ast.copy_location(ast.Name(id='c' if n.id == var[0] else n.id, ctx=n.ctx), n)
+                fn = Ren().visit(fn)
             is_first = lambda s: isinstance(s, ast.AugAssign) and ast.unparse(s.target) == 'c'
             is_last = lambda s: (isinstance(s, ast.Expr) and isinstance(s.value, ast.Call)
                                  and ast.unparse(s.value.func) == 'outs.write')
